@@ -890,8 +890,120 @@ pub fn wal_with(kind: WalKind, verify: bool, file: &[u8], obs: &mut Obs) -> ORes
 }
 
 // ---------------------------------------------------------------------------------------------
+// family 6: the default snapshot file (20-byte raw header + bitcode, optionally zstd)
 
-pub const TARGETS: [&str; 5] = ["ids", "rle", "csnap", "frame", "wal"];
+/// Own reading of the fixed header: (magic ok, version, flags, entry_count).
+pub fn snap_header(bytes: &[u8]) -> Option<(bool, u32, u32, u64)> {
+    if bytes.len() < 20 {
+        return None;
+    }
+    Some((
+        &bytes[0..4] == b"NEUM",
+        u32::from_le_bytes(bytes[4..8].try_into().unwrap()),
+        u32::from_le_bytes(bytes[8..12].try_into().unwrap()),
+        u64::from_le_bytes(bytes[12..20].try_into().unwrap()),
+    ))
+}
+
+fn canon_field<'a>(c: &'a crate::canon::Canon, name: &str) -> Option<&'a crate::canon::Canon> {
+    match c {
+        crate::canon::Canon::Map(items) => items.iter().find(|(k, _)| matches!(k, crate::canon::Canon::Str(s) if s == name)).map(|(_, v)| v),
+        _ => None,
+    }
+}
+
+/// Capacity-like fields of a stored router image that `restore` turns into eager allocations
+/// which are then written in full (not merely reserved): executing those would exhaust memory.
+fn snapv3_prescan(data: &[u8]) -> Option<&'static str> {
+    use std::io::Read;
+    let (magic, version, flags, _) = snap_header(data)?;
+    if !magic || version != 3 {
+        return None;
+    }
+    let body: Vec<u8> = if flags & 1 != 0 {
+        let mut out = Vec::new();
+        let dec = zstd::stream::read::Decoder::new(&data[20..]).ok()?;
+        let n = dec.take(64 << 20).read_to_end(&mut out);
+        if out.len() >= 64 << 20 {
+            return Some("snapv3:zstd-output-above-work-cap-not-executed");
+        }
+        n.ok()?;
+        out
+    } else {
+        data[20..].to_vec()
+    };
+    let snap: tensor_store::SlabRouterSnapshot = bitcode::deserialize(&body).ok()?;
+    let c = canon(&snap);
+    let num = |path: [&str; 2]| -> u128 {
+        match canon_field(&c, path[0]).and_then(|x| canon_field(x, path[1])) {
+            Some(crate::canon::Canon::U(v)) => *v,
+            _ => 0,
+        }
+    };
+    if num(["embeddings", "dimension"]) > 1 << 20 {
+        return Some("snapv3:embedding-dimension-above-work-cap-not-executed");
+    }
+    if num(["cache", "capacity"]) > 1 << 20 || num(["blobs", "segment_size"]) > 1 << 26 || num(["index", "max_entities"]) > 1 << 32 {
+        return Some("snapv3:capacity-field-above-work-cap-not-executed");
+    }
+    None
+}
+
+pub fn snapv3(data: &[u8], obs: &mut Obs) -> ORes {
+    if let Some(l) = snapv3_prescan(data) {
+        obs.label(l);
+        return Ok(());
+    }
+    let f = TmpFile::with_bytes("snapv3", data);
+    let (res, a) = guarded("snapshot::load", || tensor_store::snapshot::load(&f.0))?;
+    let hdr = snap_header(data);
+    // the restored router pre-allocates fixed-capacity slabs (tens of MiB for an empty store), so
+    // no input-proportional bound applies; only a gross cap against length-driven reservations
+    check_alloc("snapshot::load", a, crate::alloc::HUGE, "1 GiB cap (restored slabs have fixed capacities)")?;
+    if let Some((true, version, _, _)) = hdr {
+        if version != 3 {
+            return match res {
+                Err(_) => {
+                    obs.label("snapv3:unsupported-version-rejected");
+                    Ok(())
+                },
+                Ok(_) => fail("snapv3:unsupported-version-accepted", format!("header version {version} loaded")),
+            };
+        }
+        obs.passed_prefix = true;
+    }
+    match res {
+        Err(_) => {
+            obs.label("snapv3:reject");
+            Ok(())
+        },
+        Ok(router) => {
+            obs.decoded = true;
+            obs.label("snapv3:loaded");
+            // fixed point through the byte form
+            let (b1, _) = guarded("SlabRouter::to_bytes", || router.to_bytes())?;
+            let Ok(b1) = b1 else { return fail("snapv3:reencode-failed", "to_bytes failed on a loaded router".to_string()) };
+            let (r2, _) = guarded("SlabRouter::from_bytes", || tensor_store::SlabRouter::from_bytes(&b1))?;
+            let Ok(r2) = r2 else { return fail("snapv3:reencoded-rejected", "from_bytes rejects what to_bytes wrote".to_string()) };
+            let image = |r: &tensor_store::SlabRouter| -> Result<Vec<(String, crate::canon::Canon)>, OFail> {
+                let (v, _) = guarded("SlabRouter::scan/get", || {
+                    let mut keys = r.scan("");
+                    keys.sort();
+                    keys.into_iter().map(|k| { let t = r.get(&k).ok().map(|t| canon(&t)).unwrap_or(crate::canon::Canon::None); (k, t) }).collect::<Vec<_>>()
+                })?;
+                Ok(v)
+            };
+            if image(&router)? != image(&r2)? {
+                return fail("snapv3:not-fixed-point", "loaded router differs after to_bytes -> from_bytes".to_string());
+            }
+            Ok(())
+        },
+    }
+}
+
+// ---------------------------------------------------------------------------------------------
+
+pub const TARGETS: [&str; 6] = ["ids", "rle", "csnap", "frame", "wal", "snapv3"];
 
 pub fn run_target(name: &str, data: &[u8], obs: &mut Obs) -> ORes {
     match name {
@@ -900,6 +1012,7 @@ pub fn run_target(name: &str, data: &[u8], obs: &mut Obs) -> ORes {
         "csnap" => csnap(data, obs),
         "frame" => frame(data, obs),
         "wal" => wal(data, obs),
+        "snapv3" => snapv3(data, obs),
         _ => fail("harness:unknown-target", name.to_string()),
     }
 }
